@@ -145,10 +145,12 @@ def sharing_sets(t, v, N, must, may, tv=None, nested_N=None):
             sharing_sets(ft, getattr(v, n), nested_N, must, may, tv2, nested_N)
         return
     if k == "namedtuple":
+        tv = tinfo.scope(ti, tv)
         for n, ft in tinfo.nt_fields(ti.type):
             sharing_sets(ft, getattr(v, n), N, must, may, tv, nested_N)
         return
     if k == "typeddict":
+        tv = tinfo.scope(ti, tv)
         hints, req, opt = tinfo.td_keys(ti.type)
         for kk in hints:
             if kk in v:
